@@ -129,6 +129,19 @@ def oracle_C03(scen, m, o, reporter):
                 errs.append(f"cute shows {status[name]} for {name} whose truth is {c}: a failure message is missing or spurious")
             if (c[3] > 0) != ("error" in status[name]):
                 errs.append(f"cute shows {status[name]} for {name} whose truth is {c}: an error line is missing or spurious")
+    if reporter == "libxml":
+        # the counts each suite file claims for the suite are the sums over the suite's own tests
+        tt = per_test_truth(m)
+        own = {}
+        for path, c in tt.items():
+            a = own.setdefault("-".join(path.split("/")[:-1]), [0, 0, 0])
+            a[0] += c[1]; a[1] += c[3]; a[2] += c[2]
+        for a in xml_suite_attrs(o):
+            name = a.get("name", "")
+            want = own.get(name, [0, 0, 0])
+            got = [a.get("failures"), a.get("errors"), a.get("skipped")]
+            if got != [str(x) for x in want]:
+                errs.append(f"libxml2 report of suite {name}: failures/errors/skipped attributes {got}, its own tests had {want}")
     return "; ".join(errs[:4]) if errs else None
 
 
